@@ -81,10 +81,16 @@ def gen_cases(rng, tier):
     r = rng.fork("merge")
     for _ in range(n):
         descs = [_gen_desc(r, nmin=0, allow_dup=True) for _ in range(r.randint(1, 5))]
+        if r.chance(30):
+            descs.insert(r.randint(1, len(descs)), r.choice(descs))     # the same descriptor again, later in the list
         cases.append({"kind": "merge", "replace": r.chance(50), "name": r.choice([None, None, "new/name"]), "descs": descs})
     r = rng.fork("extend")
     for _ in range(n):
         recs = [_gen_rec(r) for _ in range(r.randint(1, 4))]
+        if r.chance(35):
+            # a descriptor that recurs after a different one (A, B, A): same type, fresh values
+            src = r.choice(recs)
+            recs.insert(r.randint(1, len(recs)), ["rec", src[1], [V.gen_value(r, t, none_chance=15) for t, _ in src[1][1]], V.gen_meta(r)])
         cases.append({"kind": "extend", "replace": r.chance(50), "name": r.choice([None, None, "ext/rec"]), "records": recs})
     r = rng.fork("ts")
     # the shapes the property text names
@@ -136,6 +142,31 @@ def gen_cases(rng, tier):
         fields = [r.choice(pool) for _ in range(r.randint(1, 5))] if w in (0, 1) else []
         exclude = [r.choice(pool) for _ in range(r.randint(1, 3))] if w in (1, 2) else []
         cases.append({"kind": "project", "record": rec, "fields": fields, "exclude": exclude})
+    # one rewriter over a SEQUENCE of records (rdump -F/-X): runs of one type, same-name types with other fields
+    r = rng.fork("projectseq")
+    for _ in range(n // 2):
+        recs = []
+        base = _gen_rec(r)
+        for _ in range(r.randint(2, 5)):
+            w = r.below(10)
+            if w < 3:
+                recs.append(["rec", base[1], [V.gen_value(r, t, none_chance=15) for t, _ in base[1][1]], V.gen_meta(r)])
+            elif w < 7:       # same record type NAME, other fields / types / order (schema evolution)
+                other = _gen_rec(r)
+                recs.append(["rec", [base[1][0], other[1][1]], other[2], other[3]])
+            elif w < 8 and len(base[1][1]) > 1:
+                fs = base[1][1]
+                i = r.below(len(fs))
+                fs2 = fs[:i] + [[r.choice(T15), fs[i][1]]] + fs[i + 1:]      # one field re-typed
+                recs.append(["rec", [base[1][0], fs2], [V.gen_value(r, t, none_chance=15) for t, _ in fs2], V.gen_meta(r)])
+            else:
+                recs.append(_gen_rec(r))
+        names = [fn for rec in recs for _, fn in rec[1][1]]
+        pool = names + ["missing", "_source", "_version"]
+        w = r.below(3)
+        fields = [r.choice(pool) for _ in range(r.randint(1, 5))] if w in (0, 1) else []
+        exclude = [r.choice(pool) for _ in range(r.randint(1, 3))] if w in (1, 2) else []
+        cases.append({"kind": "projectseq", "records": recs, "fields": fields, "exclude": exclude})
     r = rng.fork("initdict")
     for _ in range(n // 2):
         ds = _gen_desc(r)
@@ -250,6 +281,15 @@ def run_real(case):
             before = [obs_rec(rec)]
             out = RecordFieldRewriter(fields=list(case["fields"]), exclude=list(case["exclude"])).rewrite(rec)
             return {"inputs": before, "inputs_after": [obs_rec(rec)], "output": obs_rec(out), "same_object": out is rec}
+        if k == "projectseq":
+            rw = RecordFieldRewriter(fields=list(case["fields"]), exclude=list(case["exclude"]))
+            steps = []
+            for spec in case["records"]:
+                rec = V.build(spec)
+                before = [obs_rec(rec)]
+                out = rw.rewrite(rec)
+                steps.append({"inputs": before, "inputs_after": [obs_rec(rec)], "output": obs_rec(out), "same_object": out is rec})
+            return {"steps": steps}
         if k == "initdict":
             desc = V.descriptor(case["desc"])
             kv = [(kk, V.build(vs)) for kk, vs in case["kvs"]]
@@ -326,6 +366,13 @@ def oracle(case, obs):
     k = case["kind"]
     if "error" in obs:
         return f"operation raised {obs['error']}: {obs.get('msg')}"
+    if k == "projectseq":
+        # every record of the sequence is projected as if it were the only one the rewriter ever saw
+        for i, (spec, st) in enumerate(zip(case["records"], obs["steps"])):
+            f = oracle({"kind": "project", "record": spec, "fields": case["fields"], "exclude": case["exclude"]}, st)
+            if f:
+                return f"record {i} of the sequence: {f}"
+        return None
     if obs.get("inputs") != obs.get("inputs_after"):
         return "an input record/descriptor was modified by the operation"
     if k == "merge":
@@ -488,7 +535,15 @@ def _tok(obs):
     return tk, none, ver
 
 
+def _one(case, i):
+    return {"kind": "project", "record": case["records"][i], "fields": case["fields"], "exclude": case["exclude"]}
+
+
 def model_op(case, obs):
+    if case["kind"] == "projectseq":
+        if "error" in obs:
+            return None
+        return [_build(_one(case, i), st)[0] for i, st in enumerate(obs["steps"])]
     return _build(case, obs)[0]
 
 
@@ -546,6 +601,12 @@ def _cmp_rec(tk, m, o, what):
 
 
 def compare(case, obs, m):
+    if case["kind"] == "projectseq":
+        for i, (st, mi) in enumerate(zip(obs["steps"], m)):
+            d = compare(_one(case, i), st, mi)
+            if d:
+                return f"record {i} of the sequence: {d}"
+        return None
     if "error" in m and len(m) == 1:
         return f"model error {m['error']}"
     k = case["kind"]
@@ -602,6 +663,8 @@ def nontrivial(case, obs):
         return len(case["kvs"]) > 0
     if k == "project":
         return bool(case["fields"] or case["exclude"])
+    if k == "projectseq":
+        return len(set(json.dumps(r[1]) for r in case["records"])) > 1
     if k == "initdict":
         return len(case["kvs"]) > 1
     return True
@@ -629,6 +692,11 @@ def classify(case, obs):
         return f"replace:{'ok' if obs.get('ok') else 'ValueError'}"
     if k == "project":
         return f"project:{'F' if case['fields'] else ''}{'X' if case['exclude'] else ''}" or "project:none"
+    if k == "projectseq":
+        names = [r[1][0] for r in case["records"]]
+        descs = set(json.dumps(r[1]) for r in case["records"])
+        return ["projectseq:" + ("same-name-different-fields" if len(set(names)) < len(descs) else "distinct-names"),
+                f"projectseq:len-{len(names)}"]
     if k == "initdict":
         return f"initdict:{'ok' if obs.get('ok') else 'TypeError'}"
     return k
@@ -642,6 +710,9 @@ def shrink(case):
     if k == "merge" and len(case["descs"]) > 1:
         for i in range(len(case["descs"])):
             yield dict(case, descs=case["descs"][:i] + case["descs"][i + 1:])
+    if k == "projectseq" and len(case["records"]) > 1:
+        for i in range(len(case["records"])):
+            yield dict(case, records=case["records"][:i] + case["records"][i + 1:])
     if k in ("ts", "project", "replace"):
         rec = case["record"]
         nm, fs = rec[1]
